@@ -68,3 +68,26 @@ def replay_taskstream(res, pid, cfgs):
         res.extra['drift_steps'] = res.extra.get('drift_steps', 0) + ssum['drift'] + ssum['state_mismatch']
         if ssum['drift'] + ssum['state_mismatch']:
             print('SPEC-DRIFT property=%s task_stream replay: %d paths disagree with TaskStream.tla' % (pid, ssum['drift'] + ssum['state_mismatch']))
+
+
+def publish_fact_check(res, exe, which):
+    """the publishers (task_arena::enqueue, task::resume) must abort a clear transaction of arena::my_pool_state that is in flight: the fact is probed by forcing a
+    busy marker into the state word (h_wake probe_publish); if a publisher named in `which` does not, PoolState with PUBLISH_GUARDED = TRUE gives the verdict"""
+    SDS = SD
+    # the publishers (task_arena::enqueue, task::resume) must abort a clear transaction in flight: fact probed by forcing a busy marker into the state word
+    p = vlib.sh([exe, 'probe_publish'], timeout=300)
+    try:
+        pf = json.loads([l for l in p.stdout.splitlines() if l.startswith('{')][-1])
+    except Exception:
+        raise vlib.HarnessFailure('publish probe failed: %s' % (p.stdout + p.stderr)[-1500:])
+    if pf.get('rc') != 'ok' or pf['resume_aborts_clear'] not in (0, 1) or pf['enqueue_aborts_clear'] not in (0, 1):
+        raise vlib.HarnessFailure('publish probe inconclusive: %s' % pf)
+    res.extra.setdefault('code_facts', {}).update(pf)
+    if not all(pf[k] for k in which):
+        r = vlib.model_check(res, SDS, 'MCp', 'PoolState_2x2_guarded.cfg', must_hold=False, deadlock=False, timeout=1500)
+        vlib.tlc_must_hold(r, 'PoolState_2x2_guarded.cfg')
+        if r.violation:
+            who = ' and '.join(n for n, k in (('task::resume', 'resume_aborts_clear'), ('task_arena::enqueue', 'enqueue_aborts_clear')) if not pf[k])
+            res.violation('poolstate:model:guarded-publish', '%s publishes its task without aborting a clear transaction of arena::my_pool_state that is in flight (observed on the running code: a busy '
+                          'marker forced into the state word survives the call); with that fact the PoolState model loses the task: the transaction completes, the arena is declared empty with the task '
+                          'in the stream and the last thread leaves (%s violated)' % (who, r.violation), {'tlc_counterexample': vlib.extract_error_trace(r.out)[-40:], 'facts': pf})
